@@ -120,6 +120,10 @@ def build(ctx):
     sel2 = [("empty", 12), ("gng", 20), ("d3", 20)] if ctx.quick else [("empty", 14), ("gng", 26), ("d3", 26), ("g3", 26), ("lastcomp", 24), ("lastset", 30)]
     sels = {id(sch2): sel2}
     plan += [(sch2, inc2, "17", "unchecked")] if ctx.quick else [(sch2, inc2, "17", "unchecked"), (sch2, inc2, "20", "checked")]
+    # <data> whose length prefix is 32 / 64 bits wide: hostile lengths up to the type maximum (8 + length wraps in size_t for a 64-bit length)
+    sch3, inc3 = hgen.gen_headers(ctx, "vs_data_le.xml"); sch3b, inc3b = hgen.gen_headers(ctx, "vs_data_be.xml")
+    sels[id(sch3)] = [("m_uint64_char", 14), ("m_uint32_uint8", 10)]; sels[id(sch3b)] = [("m_uint64_uint8", 14), ("m_uint16_char", 8)]
+    plan += [(sch3, inc3, "17", "unchecked")] if ctx.quick else [(sch3, inc3, "17", "unchecked"), (sch3b, inc3b, "20", "unchecked")]
     open_f = [f for f in KF if f in ctx.open]
     for (s_, inc_, std, mode) in plan:
         for (mname, nmax) in sels.get(id(s_), sel):
